@@ -1,4 +1,4 @@
-\* full, safety: listener node, adversary with 5 moves, link may go silent, Shutdown (and restart) or CancelBackends at any point
+\* full, safety: listener node, adversary with 4 moves, CancelBackends at any point
 SPECIFICATION Spec
 CONSTANTS
   Links = {1}
@@ -12,12 +12,12 @@ CONSTANTS
   Coarse = FALSE
   RealNodes = {"b"}
   CancelOnReturn = TRUE
-  BSilence = 1
+  BSilence = 0
   BCut = 0
-  ShutNodes = {"b"}
+  ShutNodes = {}
   CancelNodes = {"b"}
-  BReborn = 1
-  BAdv = 5
+  BReborn = 0
+  BAdv = 4
   BIdle = 1
   BDial = 2
   Wit = FALSE
